@@ -85,8 +85,24 @@ func c15pool() []c15val {
 	add(ugo.Map{"a": ugo.True}, false)
 	add(ugo.Map{"a": ugo.Char(1)}, false)
 	add(ugo.Map{"a": ugo.Map{"b": ugo.Uint(1)}}, false)
+	// containers of equal length with different key sets / undefined members / different element order
+	add(ugo.Map{"x": ugo.Undefined, "y": ugo.Int(1)}, false)
+	add(ugo.Map{"y": ugo.Int(1), "z": ugo.Int(2)}, false)
+	add(ugo.Map{"x": ugo.Undefined}, false)
+	add(ugo.Map{"z": ugo.Undefined}, false)
+	add(ugo.Map{"b": ugo.Int(1)}, false)
+	add(ugo.Array{ugo.Undefined}, false)
+	add(ugo.Array{ugo.Int(1), ugo.Int(2)}, false)
+	add(ugo.Array{ugo.Int(2), ugo.Int(1)}, false)
+	add(ugo.Array{ugo.Map{"x": ugo.Undefined, "y": ugo.Int(1)}}, false)
+	add(ugo.Array{ugo.Map{"y": ugo.Int(1), "z": ugo.Int(2)}}, false)
+	add(&ugo.SyncMap{Value: ugo.Map{"x": ugo.Undefined, "y": ugo.Int(1)}}, false)
+	add(&ugo.SyncMap{Value: ugo.Map{"y": ugo.Int(1), "z": ugo.Int(2)}}, false)
+	add(&ugo.SyncMap{Value: ugo.Map{}}, false)
 	add(ugo.Undefined, true)
 	add(&ugo.Error{Name: "E", Message: "m"}, false)
+	add(&ugo.Error{Name: "E", Message: "other"}, false)
+	add(&ugo.Error{Name: "F", Message: "m"}, false)
 	add(&ugo.SyncMap{Value: ugo.Map{"a": ugo.Int(1)}}, false)
 	add(&ugo.Function{Name: "f", Value: func(...ugo.Object) (ugo.Object, error) { return ugo.Undefined, nil }}, false)
 	add(ugo.BuiltinObjects[ugo.BuiltinLen], false)
@@ -202,6 +218,30 @@ const (
 	kChar
 	kBool
 )
+
+// c15multiKeyMap: v holds (at any depth) a map with two or more keys, whose textual rendering is order dependent.
+func c15multiKeyMap(v ugo.Object) bool {
+	switch o := v.(type) {
+	case ugo.Map:
+		if len(o) >= 2 {
+			return true
+		}
+		for _, e := range o {
+			if c15multiKeyMap(e) {
+				return true
+			}
+		}
+	case *ugo.SyncMap:
+		return c15multiKeyMap(o.Value)
+	case ugo.Array:
+		for _, e := range o {
+			if c15multiKeyMap(e) {
+				return true
+			}
+		}
+	}
+	return false
+}
 
 func c15kind(v ugo.Object) nkind {
 	switch v.(type) {
@@ -559,7 +599,10 @@ func (c15) checkPair(c *core.Ctx, sc *c15scripts, a, b c15val) {
 		if s.panicked != "" && d.panicked == "" {
 			c.Violation("C15|panic-script|"+tname(A)+"|"+tok.String()+"|"+tname(B), "operator panics in VM: "+core.NormMsg(s.panicked), wit(tok.String(), "script", s.panicked, "value or error"))
 		}
-		if d.panicked == "" && s.panicked == "" && d.key() != s.key() {
+		if tok == token.Add && (c15multiKeyMap(A) || c15multiKeyMap(B)) {
+			// string/bytes + container renders a map in Go's (random) iteration order: two evaluations need not agree
+			c.Count("map_rendering_order_not_compared")
+		} else if d.panicked == "" && s.panicked == "" && d.key() != s.key() {
 			c.Violation("C15|route|"+tok.String()+"|"+tname(A)+"|"+tname(B), "direct BinaryOp and script disagree", wit(tok.String(), "both", s.key(), d.key()))
 		}
 		switch d.errName {
